@@ -386,6 +386,25 @@ func VH07d_late_response() {
 	switch w {
 	case "expired":
 		t0 := verif.Now()
+		if verif.Choice("exact-clock", 2) == 1 {
+			// one tick before the survey time is up a response is still delivered; at the survey time itself the
+			// survey is over (the solver decides which timers are due at either instant)
+			verif.RunClockTo(t0 + T - 1)
+			pipes[0].Deliver(frame(idA, 'p'))
+			verif.Quiesce()
+			var mp *mangos.Message
+			var ep1 error
+			gp := verif.Go("recv-in-time", func() { mp, ep1 = ep.RecvMsg() })
+			verif.Quiesce()
+			verif.Assert(gp.Done() && ep1 == nil && len(mp.Body) == 1 && mp.Body[0] == 'p', lab+"/response-within-the-survey-time-not-delivered")
+			verif.RunClockTo(t0 + T)
+			var ee error
+			ge := verif.Go("recv-at-expiry", func() { _, ee = ep.RecvMsg() })
+			verif.Quiesce()
+			verif.Assert(ge.Done() && ee == mangos.ErrProtoState, lab+"/survey-still-open-after-its-time")
+			verif.Reach("expiry-exact")
+			break
+		}
 		verif.Assert(verif.FireTimer(), lab+"/no-expiry-timer")
 		verif.Assert(verif.Now() >= t0+T, lab+"/survey-expired-early")
 		_, e := ep.RecvMsg()
